@@ -445,4 +445,8 @@ Definition wfb (g : graph) : bool :=
 
 Definition run_aut_wf (g : graph) : tok := L [ run_aut g; tbool (wfb g) ].
 Definition run_dedup_wf (p h : graph) (ms : list mapping) : tok := L [ run_dedup p h ms; tbool (wfb p); tbool (wfb h) ].
-Definition run_prune_wf (rc : graph) (raw : list mapping) : tok := L [ run_prune rc raw; tbool (wfb rc) ].
+(** every match is defined on nodes of the rule centre (premise of C11_prune_complete_aut) *)
+Definition dom_ok (rc : graph) (raw : list mapping) : bool :=
+  forallb (fun m => forallb (fun ph => LGraph.mem (fst ph) (node_ids rc)) m) raw.
+Definition run_prune_wf (rc : graph) (raw : list mapping) : tok :=
+  L [ run_prune rc raw; tbool (wfb rc); tbool (dom_ok rc raw) ].
